@@ -1,6 +1,7 @@
 """Typing obligations: analyse one entry point with abstract arguments and compare components of the derived
 abstract result with the expectation read off the property statement."""
 import ast
+import os
 
 from .program import AnalysisError
 from .interp import Interp, State, Frame
@@ -34,6 +35,15 @@ class Run(object):
 
     def returns(self):
         return [v for v, _ in (self.flow.returns if self.flow else [])]
+
+    def final_attr(self, name):
+        """the attribute of the receiver when the call returns normally (joined over the paths); None when not derivable"""
+        st2 = getattr(self, "final", None)
+        so = getattr(self, "self_obj", None)
+        if st2 is None or so is None:
+            return None
+        o = st2.heap.get(so.id)
+        return o.attrs.get(name) if o is not None else None
 
 
 def analyse(chk, qual, build=None, atoms=(R, DT), self_cls=None, flags="cold", listeners=None, setup=None):
@@ -70,6 +80,7 @@ def analyse(chk, qual, build=None, atoms=(R, DT), self_cls=None, flags="cold", l
     chk.files.add(fi.module.relpath)
     r = Run(I, st, ret, flow, fi)
     r.self_obj = self_obj
+    r.final = st2
     return r
 
 
@@ -116,7 +127,18 @@ def expect(chk, rule, construct, av, loc=None, atoms=(R, DT), **exp):
         if key == "length":
             w = LinExpr(want)
             ln = av.length()
-            ob("len", "length %r" % w, ln is not None and ln == w, "length %r" % (ln,), indef=(ln is None and ind))
+            okl = ln is not None and ln == w
+            und = False
+            if ln is not None and not okl:
+                # two different spellings of a length are compared as symbolic integers (constant-folded over sample values): a witness value
+                # refutes; spellings that agree on every sample (max[S, S+n-1] - min[S, S+n-1] + 1 against n) are not a refutation
+                from .values import compare_index_exprs
+                try:
+                    verdict, why = compare_index_exprs(ln, w)
+                except Exception:
+                    verdict, why = "unknown", "not comparable"
+                und = verdict != "differ"
+            ob("len", "length %r" % w, okl, "length %r" % (ln,), indef=(ln is None and ind) or und)
         elif key == "shape":
             w = tuple(LinExpr(x) for x in want)
             ob("shape", "shape %r" % (w,), av.shape is not None and tuple(av.shape) == w, "shape %r" % (av.shape,),
@@ -153,8 +175,16 @@ def expect(chk, rule, construct, av, loc=None, atoms=(R, DT), **exp):
             ob("first", "first element exactly zero", bool(av.f0), "f0=%s" % av.f0, indef=ind)
         elif key == "tags_has":
             for t in want:
+                # provenance (p:<parameter>, attr:<attribute>, user-*) is a dataflow fact: a precisely known value without it does not depend
+                # on that input.  A construction tag (cum, interp:linear, pad ...) names ONE way of building the value: its absence is "built
+                # another way", which is not a refutation (DESIGN 9.23)
+                # ... unless a DIFFERENT member of the same family is present (quad:rectangle where quad:trapezoid is wanted, sel:first
+                # where sel:last is): that is a located other construction
+                fam = t.split(":")[0] + ":" if ":" in t else None
+                rival = fam is not None and any(x.startswith(fam) and x != t for x in av.tags)
+                constr = not t.startswith(("p:", "attr:", "user-", "stored:", "ret:", "kw:")) and not rival
                 ob("via:" + t, "derives through %s" % t, t in av.tags, "tags %s" % sorted(x for x in av.tags if x.split(":")[0] == t.split(":")[0]),
-                   indef=ind)
+                   indef=ind or constr)
         elif key == "tags_not":
             for t in want:
                 ob("not-via:" + t, "does not derive through %s" % t, t not in av.tags, "tags %s" % sorted(x for x in av.tags if x.split(":")[0] == t.split(":")[0]))
